@@ -4,6 +4,7 @@ import TexelVerif.Draw.Third
 import TexelVerif.Draw.WitnessProofs
 import TexelVerif.Draw.Prologue
 import TexelVerif.Draw.GameLemmas
+import TexelVerif.Draw.GameInv
 /-!
 # C11 — draws by repetition and the 50-move rule are recognised
 
@@ -274,6 +275,54 @@ theorem finished_game_is_frozen (fixRedo : Bool) (g : Game) (hover : getGameStat
   have h1 : (getGameState g != .alive) = true := by simpa using hover
   have h2 : (getGameState g == .alive) = false := by simpa using hover
   simp [processString, processMove, h1, h2]
+
+/-- **for every game history** — every state reachable by console commands (repaired `redo`) from a start position as
+    the FEN reader gives it records a legal game: the positions compared by claims are exactly the positions
+    `p₀ … p_cur` of the specification played with the first `currentMove` moves of the move list, all normalised -/
+theorem console_record_spec (g : Game) (h : Reach g) :
+    ∃ p0, (gamePositions g).head? = some p0 ∧ gamePositions g = states nextPos p0 (g.moves.take g.cur) ∧
+      LegalLine p0 (g.moves.take g.cur) ∧ ∀ q ∈ gamePositions g, Norm q := by
+  obtain ⟨hi, hn⟩ := reach_inv g h
+  obtain ⟨p0, h1, h2, h3⟩ := inv_gamePositions g hi
+  exact ⟨p0, h1, h2, h3, gamePositions_norm g hn⟩
+
+/-- the FEN reader's output is normalised (so `Reach.start` applies to every `new` / `setpos`) -/
+theorem start_positions_normalised (fen : String) (p : Pos) (h : readFEN fen = .ok p) : Norm p := readFEN_norm fen p h
+
+/-- **`draw_claim_spec` at rule level** — in a reachable live game, `draw rep [m]` is accepted exactly when the claimed
+    position occurs at least three times in the game (itself included), positions compared under the repetition rule
+    (`sameRules`: board, side to move, castling rights, e.p. capturability).  `hep`: the claimed move is not a double pawn
+    push beside an enemy pawn (after such a move the position cannot have occurred before). -/
+theorem draw_claim_rule_level (g : Game) (h : Reach g) (m : Option Mv) (hal : getGameState g = .alive)
+    (hep : ∀ mv, legalOnly g m = some mv → (apply g.pos mv).ep = none) :
+    (processString true g (.drawRep m)).1.drawState = .drawRep ↔
+      3 ≤ (claimLine g m).countP (fun q => decide (sameRules q (claimed g m))) := by
+  rw [draw_claim_spec_rep true g m hal]
+  obtain ⟨_, hn⟩ := reach_inv g h
+  have hgp := gamePositions_norm g hn
+  have hcl : Norm (claimed g m) := by
+    unfold claimed
+    cases hm : legalOnly g m with
+    | none => exact hn.1
+    | some mv => exact fixupEP_of_ep_none _ (hep mv hm)
+  have hline : ∀ q ∈ claimLine g m, Norm q := by
+    intro q hq
+    unfold claimLine at hq
+    rcases List.mem_append.1 hq with hq | hq
+    · exact hgp q hq
+    · cases hm : legalOnly g m with
+      | none => rw [hm] at hq; cases hq
+      | some mv =>
+        rw [hm] at hq
+        simp only [List.mem_singleton] at hq
+        rw [hq]; exact fixupEP_of_ep_none _ (hep mv hm)
+  have : (claimLine g m).countP (fun q => decide (drawKey q = drawKey (claimed g m))) =
+      (claimLine g m).countP (fun q => decide (sameRules q (claimed g m))) := by
+    apply List.countP_congr
+    intro q hq
+    simp only [decide_eq_true_eq]
+    exact (sameRules_of_norm (hline q hq) hcl).symm
+  rw [this]
 
 /-- **`redo_witness`** — `redo` before the repair replays the raw `makeMove`: after `e2e4; undo; redo` in the witness game
     the position keeps the e.p. square e3, and the claim `draw rep g2g1` for the third occurrence is rejected (the move is
